@@ -1,6 +1,6 @@
 (** Correspondence judge for C05: compares what the Go code returned (recorded in the case by the harness)
     with the faithful model (tie flags) and with the specification (property flags). *)
-From Coq Require Import ZArith QArith Qround List Bool Arith.
+From Coq Require Import ZArith QArith Qabs Qround Qround List Bool Arith.
 From CV Require Import Base.Dy Dash.DashPhase Geom.Matrix Geom.Bezier Split.Cert.
 Import ListNotations.
 Open Scope Q_scope.
@@ -227,7 +227,48 @@ Definition judge_k3 (c : k3case) : list Z :=
     (if Qle_bool L 0 then 0 else Qfloor (worst * 1000 / L))%Z ].
 
 (* ============================================================================================== *)
-Inductive case05 := K1 (h : Q) (c : k1case) | K2 (c : k2case) | K3 (c : k3case).
+(** * K4: Path.Dash on one elliptical arc with exact geometry — the returned dashes judged against the ellipse with the
+      orientation predicates of Corr/C09 (same ellipse and direction, on the ellipse, in order along the arc, large-arc flag
+      consistent with the end points) and against the pattern: number of dashes = number of drawn intervals, Go's own length of
+      every dash within 2 % of the path length of its prescribed length (two cuts, each documented as accurate to 1 %).
+      CHECKED, NOT PROVED (no arc-length function for ellipses in the development). *)
+From CV Require Import Geom.Matrix Geom.MatrixProofs Geom.Ellipse Corr.C09.
+Record k4case := mkK4 { f_arc : acase; f_off : Q; f_d : list Q }.
+
+Fixpoint dashes_advance (c : acase) (prev : qpt) (ps : list apiece) : bool :=
+  match ps with
+  | [] => true
+  | p :: r => in_spanb (aSweep c) (circ c prev) (circ c (aE c)) (circ c (ap_s p)) &&
+              in_spanb (aSweep c) (circ c (ap_s p)) (circ c (aE c)) (circ c (ap_e p)) && dashes_advance c (ap_e p) r
+  end.
+
+(** flags: 1 tie (generated arc inconsistent), 2 PROP a dash is not an arc of the same ellipse in the same direction or its
+    end points are off the ellipse, 4 PROP dashes out of order along the arc, 8 PROP a dash's length (Go's own) differs from
+    the pattern's by more than 2 % of the path length, 16 PROP large-arc flag of a dash contradicts its end points,
+    32 PROP number of dashes, 64 PROP panic. Output [flags; #dashes; worst length deviation in 1/1000 of the path length] *)
+Definition judge_k4 (k : k4case) : list Z :=
+  let c := f_arc k in
+  if aPanic c then [64%Z; 0%Z; 0%Z] else
+  let sl := 1 # 1073741824 in
+  let u := circ c (aS c) in let v := circ c (aE c) in
+  let gen_ok := on_unit sl u && on_unit sl v &&
+                (Qle_bool (Qabs (qcross u v)) (1 # 1048576) || Bool.eqb (aLarge c) (arc_large (aSweep c) u v)) in
+  let ps := aPieces c in
+  let L := aLen c in
+  let spec := drawn_intervals (f_d k) (f_off k) L in
+  let same := forallb (fun p => ap_same p && Bool.eqb (ap_sweep p) (aSweep c) &&
+                                on_unit sl (circ c (ap_s p)) && on_unit sl (circ c (ap_e p))) ps in
+  let order := dashes_advance c (aS c) ps in
+  let larges := forallb (large_ok c) ps in
+  let cnt := (length ps =? length spec)%nat in
+  let devs := map (fun xy => let '(p, (a, b)) := xy in Qabs (ap_len p - (b - a))) (combine ps spec) in
+  let worst := fold_right (fun d m => if Qle_bool m d then d else m) 0 devs in
+  let lens := Qle_bool worst (L * (2 # 100) + (1 # 1000000)) in
+  [ (bit (negb gen_ok) 1 + bit (negb same) 2 + bit (same && negb order) 4 + bit (cnt && negb lens) 8 + bit (same && negb larges) 16 +
+     bit (negb cnt) 32)%Z; Z.of_nat (length ps); (if Qle_bool L 0 then 0 else Qfloor (worst * 1000 / L))%Z ].
+
+(* ============================================================================================== *)
+Inductive case05 := K1 (h : Q) (c : k1case) | K2 (c : k2case) | K3 (c : k3case) | K4 (c : k4case).
 
 Definition judge (c : case05) : list Z :=
-  match c with K1 h k => judge_k1 h k | K2 k => judge_k2 k | K3 k => judge_k3 k end.
+  match c with K1 h k => judge_k1 h k | K2 k => judge_k2 k | K3 k => judge_k3 k | K4 k => judge_k4 k end.
